@@ -82,7 +82,7 @@ CLAIMS["C05"] = dict(
          "parser are covered only by BOUNDED stand-ins (real parser+assembler vs an independent evaluator), reported separately and not counted as proved.",
     note="Trusted: pyvc, z3, uninterpreted pow2 / bitwise functions on both sides, spec/expr_spec.py. Bounded (not proof): 11900 literal spellings up to length 4; every "
          "ordered operator pair flat and grouped, every prefix/infix combination (triples in thorough). Expression trees of depth 6 through the real parser are not claimed. "
-         "The per-token value cache (finding D3) is owned by C16.",
+         "The per-token memo of impure operators (defect D3/D48, repaired) is exercised by the resolve-again units: one token evaluated in two states. A bounded grid of operand values (negative, beyond 2^53) stands behind every operator body.",
 )
 
 CLAIMS["C07"] = dict(
@@ -94,7 +94,7 @@ CLAIMS["C07"] = dict(
          "is latched; warnings-only runs succeed and write every output with the bytes of its format at its path. Frame: the report handlers write only their own "
          "fields and open nothing. Run-time check: the real CLI on 10 planted faults x 2 report formats x -W selections (testing).",
     note="Trusted: pyvc (with / try / SystemExit), z3; argparse is external (the args object is the input). parse+compile are a contract reporting through the real "
-         "emit_report. Known findings proved absent outside their regions: D12 (a later write fails after an earlier one succeeded), D8 (image >= 64 KiB to bin).",
+         "emit_report. Known finding proved absent outside its region: D12 (a later write fails after an earlier one succeeded). D8 (image >= 64 KiB) and D47 (-o - with the bare format) were repaired in /repo; a container that cannot be built is a reported failure with nothing written.",
 )
 
 CLAIMS["C19"] = dict(
@@ -103,7 +103,7 @@ CLAIMS["C19"] = dict(
          "the value (negative and > 16 bit values included) and is at least 6 wide; main_cli --lst writes it beside the first output, '.<format>' replaced by '.lst', "
          "'-' -> listing.lst, for 8 output spellings x 0-2 make_* outputs. Label values are the address objects of the C02 accounting. Run-time check on real listings.",
     note="Trusted: pyvc incl. its forking model of list.sort, z3; oct()/int(.,8) are axiomatised (zero padding, sign) and differential-tested by the run-time check. "
-         "Known findings D12/D8 as in C07.",
+         "Known finding D12 as in C07. The sized sites of the data directives and the structural / kernel units are shared (contracts/structure.py); run-time: the byte at every listed label address.",
 )
 
 CLAIMS["C08"] = dict(
@@ -114,7 +114,7 @@ CLAIMS["C08"] = dict(
          "through an internal exception of parse/compile). Totality over 'all source texts' is NOT decided: the parser is outside the verifier's subset. A run-time "
          "check feeds 300 (3000 thorough) grammar-directed random programs with planted faults through the real parser+assembler under a watchdog (testing).",
     note="Trusted: pyvc incl. its models of builtin exceptions, z3. Known findings proved absent outside their regions: "
-         "D15 (x = x + 1: never terminates), D16 (x = x / 2: DeferredCycle escapes), D8 (image >= 64 KiB to bin), D12 (shared C07 units). Recursion depth/memory/time "
+         "D36 (a value of more than 4300 digits quoted in a diagnostic), D12 (shared C07 units). D15 / D16 (cyclic definitions: hang / uncaught DeferredCycle) and D8 were repaired in /repo: cyclic definitions are reported as recursive-definition. Recursion depth/memory/time "
          "are not modelled. The parser's own totality is not claimed.",
 )
 
@@ -198,6 +198,6 @@ CLAIMS["C13"] = dict(
          "checksum equal to the 16-bit end-around-carry sum. Closed: the pulse constants equal the BK tape shapes and are prefix-free. The spec demodulator is also "
          "run on the real encoder's output (run-time check, counted separately).",
     note="Trusted: pyvc, z3, struct.pack model, spec/bk_tape.py as the statement of the tape format. sum(code) is an uninterpreted function of the byte sequence. "
-         "Path derivation of make_* directives and CLI -o (os.path, devices) is not yet under contract. Known finding D8 (image >= 64 KiB in bin format) is proved absent "
-         "outside its region.",
+         "Path derivation: add_emitted_file / add_emitted_bk_wav under contract, resolve_relative_path by a bounded stand-in, '.include' parses under the resolved path; "
+         "run-time: the real command line from another directory. D8 (image >= 64 KiB) was repaired in /repo: formats.bin_ raises struct.error only when the length does not fit, and the callers report it.",
 )
